@@ -312,15 +312,42 @@ class Body:
             l = t["d"]["pl"]["l"]
             ds = self.defs().get(l, [])
             is_temp = len(ds) == 1 and ds[0][2] == "assign" and ds[0][3]["rv"]["k"] == "use" and ds[0][3]["rv"]["op"]["k"] in ("copy", "move") and not ds[0][3]["rv"]["op"]["pl"].get("p") and ds[0][3]["rv"]["op"]["pl"]["l"] in cand and ds[0][0] == b
-            if l in cand and not is_temp:
+            src_flag = None
+            if l in single and len(ds) == 1 and ds[0][2] == "assign" and ds[0][3]["rv"]["k"] == "use" and ds[0][3]["rv"]["op"]["k"] in ("copy", "move") and not ds[0][3]["rv"]["op"]["pl"].get("p"):
+                sl = ds[0][3]["rv"]["op"]["pl"]["l"]
+                if sl in cand and sl not in single:
+                    src_flag = sl  # a temp of a constant-only flag defined in another block: judged by the chain rule below
+            if l in cand and not is_temp and src_flag is None:
                 ctl[b] = l
                 continue
             if len(ds) == 1 and ds[0][2] == "assign":
                 rv = ds[0][3]["rv"]
                 if rv["k"] == "use" and rv["op"]["k"] in ("copy", "move") and not rv["op"]["pl"].get("p") and rv["op"]["pl"]["l"] in cand:
-                    # the temp must be defined in the same block as the switch (no reordering issues)
+                    # the temp must be defined in the same block as the switch (no reordering issues), or in a block that
+                    # runs straight into it (`_t = move flag; goto -> switch _t`, the return join of a spliced helper) with
+                    # no assignment of the flag in between
+                    fl = rv["op"]["pl"]["l"]
                     if ds[0][0] == b:
-                        ctl[b] = rv["op"]["pl"]["l"]
+                        ctl[b] = fl
+                    else:
+                        d, hops, okc = ds[0][0], 0, True
+                        fdefs = {(x[0], x[1]) for x in self.defs().get(fl, [])}
+                        if any(bb_ == d and i_ > ds[0][1] for (bb_, i_) in fdefs):
+                            okc = False
+                        cur = d
+                        while okc and cur != b and hops < 4:
+                            tt = self.blocks[cur]["t"]
+                            if tt["k"] != "goto":
+                                okc = False
+                                break
+                            cur = tt["target"] if "target" in tt else (self.succ(cur) or [None])[0]
+                            hops += 1
+                            if cur is None or (cur != b and any(bb_ == cur for (bb_, _i) in fdefs)):
+                                okc = False
+                        if okc and cur == b and not any(bb_ == b for (bb_, _i) in fdefs):
+                            ctl[b] = fl
+            if b not in ctl and l in cand and not is_temp:
+                ctl[b] = l
         # the variant of an Option / Result local that is assigned once and never borrowed whole: two `match`es on it agree
         # (`if let Some(x) = opt { start(x) } ... if let Some(x) = opt { join(x) }`).  Pseudo-flag id: -(local + 1).
         dcand = set()
